@@ -109,8 +109,8 @@ impl SparseComplex {
     /// integral homology: (rank, invariant factors > 1) per degree
     pub fn homology_z(&self) -> Result<Vec<(usize, Vec<Z>)>, String> {
         let (dims, mats) = self.reduce(None)?;
-        if dims.iter().sum::<usize>() > 1500 { return Err("remainder too large".into()) }
-        let facs: Vec<Vec<Z>> = mats.iter().map(|m| m.snf_diag()).collect();
+        if dims.iter().sum::<usize>() > 600 { return Err("remainder too large".into()) }
+        let facs: Vec<Vec<Z>> = mats.iter().map(|m| m.try_snf_diag(3000)).collect::<Option<Vec<_>>>().ok_or("coefficient explosion in the textbook SNF")?;
         let l = dims.len();
         Ok((0..l).map(|i| {
             let r_in = if i > 0 { facs[i - 1].len() } else { 0 };
